@@ -70,8 +70,24 @@ func ruleC18ClosureState(c *Ctx) {
 							longLived = "returned"
 						case *ssa.Store:
 							if x.Val == v {
-								if _, isFA := x.Addr.(*ssa.FieldAddr); isFA {
-									longLived = "stored in a field"
+								if fa, isFA := x.Addr.(*ssa.FieldAddr); isFA {
+									// a field of an object built by this very call lives as long as that object does:
+									// follow the object instead (a visitor made for one walk and dropped is not shared)
+									base := fa.X
+									for {
+										inner, isInner := base.(*ssa.FieldAddr)
+										if !isInner {
+											break
+										}
+										base = inner.X
+									}
+									if al, isAl := base.(*ssa.Alloc); isAl && al.Referrers() != nil {
+										follow(al, depth+1)
+									} else {
+										longLived = "stored in a field"
+									}
+								} else if _, isGlobal := x.Addr.(*ssa.Global); isGlobal {
+									longLived = "stored in a package variable"
 								}
 							}
 						case *ssa.MakeInterface:
